@@ -274,7 +274,29 @@ def _k4(ctx: Context, ss, ser, des) -> None:
                     up = x.slice.upper
                     if isinstance(up, ast.BinOp) and isinstance(up.op, ast.Add) and _u(up.left) == off:
                         K_slice = ctx.const(ef, up.right, None)
-    ck.check("C16.K4", K_step == K_slice == 255, "encoder: chunk step = slice width = 255", f"{ctx.fkey(ef)}:chunk", f"TLVStruct.encode chunks by step {K_step} / slice width {K_slice} (TLV8: 255)", ef.loc())
+    if K_step is None:
+        # the consuming form: `while len(v) > K: emit v[:K]; v = v[K:]` and the remainder after the loop
+        for n in ecfg.nodes:
+            if n.kind != "test" or not any(fr[0] == "loop" for fr in n.frames) and not isinstance(n.ast, ast.While):
+                continue
+            cp = compare_parts(n.exprs[0])
+            if not (cp and cp[1] == "Gt" and isinstance(cp[0], ast.Call) and isinstance(cp[0].func, ast.Name) and cp[0].func.id == "len" and len(cp[0].args) == 1
+                    and isinstance(cp[0].args[0], ast.Name)):
+                continue
+            v, K_test = cp[0].args[0].id, ctx.const(ef, cp[2], None)
+            takes = {ctx.const(ef, x.slice.upper, None) for x in walk_own(ef.node) if isinstance(x, ast.Subscript) and isinstance(x.slice, ast.Slice)
+                     and isinstance(x.value, ast.Name) and x.value.id == v and x.slice.lower is None and x.slice.upper is not None}
+            advs = {ctx.const(ef, x.value.slice.lower, None) for x in walk_own(ef.node) if isinstance(x, ast.Assign) and len(x.targets) == 1 and isinstance(x.targets[0], ast.Name)
+                    and x.targets[0].id == v and isinstance(x.value, ast.Subscript) and isinstance(x.value.slice, ast.Slice) and isinstance(x.value.value, ast.Name)
+                    and x.value.value.id == v and x.value.slice.upper is None and x.value.slice.lower is not None}
+            if len(takes) == 1 and len(advs) == 1 and isinstance(K_test, int):
+                K_slice, K_step = next(iter(takes)), next(iter(advs))
+                ck.check("C16.K4", K_test == K_step, "encoder: a fragment is split off while more than the fragment size is left", f"{ctx.fkey(ef)}:chunk-loop-test",
+                         f"TLVStruct.encode splits fragments of {K_step} bytes off while more than {K_test} bytes are left", ctx.loc(ef, n))
+    if K_step is None and K_slice is None:
+        ck.unknown("C16.K4", "TLVStruct.encode: the fragmentation loop was not recognised (neither range(0, len, K) nor while len > K): fragment size not decided", ef.loc())
+    else:
+        ck.check("C16.K4", K_step == K_slice == 255, "encoder: chunk step = slice width = 255", f"{ctx.fkey(ef)}:chunk", f"TLVStruct.encode chunks by step {K_step} / slice width {K_slice} (TLV8: 255)", ef.loc())
     # decoder: continuation trigger length == 255
     itf = ctx.func(f"{M}.tlv_iterator")
     icfg = ctx.cfg(itf.qualname)
@@ -288,7 +310,7 @@ def _k4(ctx: Context, ss, ser, des) -> None:
                     pass
                 if any(isinstance(w, ast.While) and any(n.exprs[0] is y for y in ast.walk(w.test)) for w in ast.walk(itf.node)):
                     trig = ctx.const(itf, cp[2], None)
-    ck.check("C16.K4", trig == 255 == K_step, "decoder: a value continues exactly after a 255-byte fragment", f"{ctx.fkey(itf)}:continuation", f"tlv_iterator continues a value when length == {trig}; the encoder fragments at {K_step}", itf.loc())
+    ck.check("C16.K4", trig == 255 and K_step in (255, None), "decoder: a value continues exactly after a 255-byte fragment", f"{ctx.fkey(itf)}:continuation", f"tlv_iterator continues a value when length == {trig}; the encoder fragments at {K_step}", itf.loc())
     # declaration order: for f in fields(self)
     order = any(n.kind == "for_iter" and isinstance(n.ast.iter, ast.Call) and ctx.resolve_name(ef, n.ast.iter.func) == "dataclasses.fields" and _u(n.ast.iter.args[0]) == "self" for n in ecfg.nodes)
     ck.check("C16.K4", order, "fields are emitted in declaration order (dataclasses.fields(self))", f"{ctx.fkey(ef)}:order", "TLVStruct.encode no longer iterates dataclasses.fields(self)", ef.loc())
@@ -305,6 +327,34 @@ def _k4(ctx: Context, ss, ser, des) -> None:
     sep_default = ctx.const(af, af.node.args.defaults[-1], None) if af.node.args.defaults else None
     ck.check("C16.K4", seps == {bytes([sep_default or 0, 0])} and sep_default == 0, "sequence separator emitted (00 00) = separator the splitter looks for (type 0, length 0)", f"{M}:separator",
              f"serialize_typing_sequence emits {sorted(seps)} but tlv_array splits on type {sep_default}", sf.loc())
+    # a separator stands between neighbours because of their POSITION: a test that decides whether the separator is
+    # emitted must not look at the items themselves (`if val != value[-1]` drops the separator after every item that equals
+    # the last one - two equal neighbours then decode as one item)
+    scfg = ctx.cfg(sf.qualname)
+    seq_p = ("param", sf.pos_params[1]) if len(sf.pos_params) >= 2 else None
+    sep_nodes = [n for n in scfg.nodes for c in ctx.calls(n) if isinstance(c.func, ast.Attribute) and c.func.attr == "extend" and c.args
+                 and isinstance(ctx.const(sf, c.args[0], None), bytes) and any(fr[0] == "loop" and fr[2] == "body" for fr in n.frames)]
+
+    def _is_item(s_) -> bool:
+        if s_[0] in ("iter", "each") and len(s_) == 2:
+            if s_[1] == seq_p:
+                return True
+        if s_[0] == "sub" and len(s_) == 3 and s_[1][0] in ("iter", "each") and s_[2] == ("const", 1) and s_[1][1][0] == "call" and s_[1][1][1] == ("glob", "enumerate"):
+            return True
+        return s_[0] == "sub" and len(s_) == 3 and s_[1] == seq_p  # value[i] / value[-1]
+
+    for sn in sep_nodes:
+        for tn in scfg.nodes:
+            if tn.kind != "test" or not any(fr[0] == "loop" and fr[2] == "body" for fr in tn.frames):
+                continue
+            gates_it = any(scfg.find_path(tn.id, sn.id, avoid_edges=scfg.out_edges(tn, (lab,))) is None and scfg.find_path(tn.id, sn.id) is not None for lab in ("T", "F"))
+            if not gates_it:
+                continue
+            tt = strip_sites(T.of(scfg, tn, tn.exprs[0]))
+            by_value = contains(tt, _is_item)
+            ck.check("C16.K4", not by_value, "the test that places a separator looks at positions, not at the items", f"{ctx.fkey(sf)}:separator-by-value",
+                     f"serialize_typing_sequence decides by `{tn.text()}` - a comparison of the items themselves - whether a separator follows: equal items lose "
+                     "the separator between them and decode as one item", ctx.loc(sf, tn))
     df = ctx.func(f"{M}.deserialize_typing_sequence")
     explicit = [x for x in walk_own(df.node) if isinstance(x, ast.Call) and ctx.resolve_name(df, x.func) == f"{M}.tlv_array" and (len(x.args) > 1 or x.keywords)]
     ck.check("C16.K4", not explicit, "the sequence decoder uses the default separator", f"{ctx.fkey(df)}:separator-arg", "deserialize_typing_sequence passes its own separator", df.loc())
@@ -376,102 +426,244 @@ def _k4(ctx: Context, ss, ser, des) -> None:
 
 
 def _t1(ctx: Context) -> None:
+    _t1_iterator(ctx)
+    _t1_array(ctx)
+
+
+def _t1_iterator(ctx: Context) -> None:
+    """Byte accounting of tlv_iterator, stated over values at program points (engine/avail.py) and therefore independent of
+    how the look-ahead is organised (a `peek` temporary inside the loop, a `next_offset` kept across iterations, the tests
+    folded into the loop condition ...).  With O the cursor, and buf the parameter:
+
+        type byte   = buf[O]              read only under  O < len(buf)
+        length byte = buf[O + 1]
+        value       = buf[O + 2 : O + 2 + buf[O + 1]]                       (first fragment assigned, further ones appended)
+        look-ahead  = buf[O + 2 + buf[O + 1]]   read only under  (that index) < len(buf),  compared with the item's type
+        every move of O:   O := O + 2 + buf[O + 1]                          (to the next fragment / item, never elsewhere)
+    """
+    from ..engine import avail as AV
+
     ck = ctx.ck
+    R = "C16.T1"
     f = ctx.func(f"{M}.tlv_iterator")
     cfg = ctx.cfg(f.qualname)
-    T = ctx.terms
+    fk = ctx.fkey(f)
     buf = f.pos_params[0]
-    # collect by data flow
-    asg = {}
-    for n in cfg.nodes:
-        if n.kind == "stmt" and isinstance(n.ast, (ast.Assign, ast.AugAssign)):
-            tg = n.ast.targets[0] if isinstance(n.ast, ast.Assign) else n.ast.target
-            if isinstance(tg, ast.Name):
-                asg.setdefault(tg.id, []).append(n)
-    # peek = offset + 2 + length
-    peeks = [n for n in cfg.nodes if n.kind == "stmt" and isinstance(n.ast, ast.Assign) and isinstance(n.ast.value, ast.BinOp) and any(isinstance(x, ast.Name) and x.id == "length" for x in ast.walk(n.ast.value)) is not None
-             and isinstance(n.ast.targets[0], ast.Name) and any(fr[0] == "loop" for fr in n.frames) and sum(1 for fr in n.frames if fr[0] == "loop") == 2]
-    inner = [n for n in peeks if isinstance(n.ast.value, ast.BinOp)]
-    offv = lenv = None
-    # names of offset and length from the yield
     ys = [x for x in walk_own(f.node) if isinstance(x, ast.Yield)]
     if len(ys) != 1 or not isinstance(ys[0].value, ast.Tuple) or len(ys[0].value.elts) != 4:
-        ck.unknown("C16.T1", "tlv_iterator: yield (offset, type, length, value) not found", f.loc())
+        ck.unknown(R, "tlv_iterator: yield (offset, type, length, value) not found", f.loc())
         return
     offv, typv, lenv, valv = [e.id if isinstance(e, ast.Name) else None for e in ys[0].value.elts]
-    if None in (offv, typv, lenv, valv):
-        ck.unknown("C16.T1", "tlv_iterator: yield elements are not simple names", f.loc())
+    if None in (offv, typv, lenv, valv) or len({offv, typv, lenv, valv}) != 4:
+        ck.unknown(R, "tlv_iterator: yield elements are not four distinct simple names", f.loc())
         return
+    A = AV.Avail(ctx, cfg)
+    if A.kills.get(buf):
+        ck.unknown(R, f"tlv_iterator: the buffer `{buf}` is rebound or changed in place: byte accounting by offset not decided", f.loc())
+        return
+    BUF = AV.atom(("var", buf))
+    roles = {offv, typv, lenv, valv, buf}
+    live = cfg.reachable_from(cfg.entry.id) | {cfg.entry.id}
+
+    def in_roles(v) -> bool:
+        """the value is built only from the cursor variables, the buffer and constants (nothing the analysis could not read)"""
+        return all(a[0] != "opaque" and (a[0] != "var" or a[1] in roles) for a in AV.atoms_of(v))
+
+    def judge(ok: bool, actual, desc: str, key: str, msg: str, loc) -> None:
+        if ok:
+            ck.holds(R, desc, loc)
+        elif all(in_roles(v) for v in actual):
+            ck.violated(R, f"{fk}:{key}", msg, loc, None, desc)
+        else:
+            ck.unknown(R, f"{msg} - the value depends on something the analysis does not read: not decided", loc)
+
+    def frag_len(n):  # the length byte of the fragment at the cursor, as of node n
+        return AV.atom(("read", BUF, AV.add(A.var(n, offv), AV.const(1))))
+
+    def next_start(n):  # where the fragment after the one at the cursor starts
+        return AV.add(AV.add(A.var(n, offv), AV.const(2)), frag_len(n))
+
+    def L_at(n):
+        return A.var(n, lenv)
+
+    # ---- every indexed read of the buffer, classified by the value of its index at that point
+    type_reads, peek_reads = [], []
+    n_reads = 0
+    for n in cfg.nodes:
+        if n.id not in live:
+            continue
+        roots = [n.ast] if n.kind == "stmt" and n.ast is not None else [e for e in n.exprs if e is not None]
+        for r in roots:
+            for x in walk_expr(r):
+                if not (isinstance(x, ast.Subscript) and isinstance(x.value, ast.Name) and x.value.id == buf and isinstance(x.ctx, ast.Load)):
+                    continue
+                if isinstance(x.slice, ast.Slice):
+                    continue
+                n_reads += 1
+                idx = A.value(n, x.slice)
+                O = A.var(n, offv)
+                # the length variable stands for the length byte when it is in step with the cursor here
+                peek = AV.add(AV.add(O, AV.const(2)), L_at(n))
+                if idx == O:
+                    type_reads.append((n, x))
+                elif idx == AV.add(O, AV.const(1)):
+                    pass  # the length byte
+                elif idx == peek and L_at(n) == frag_len(n) or idx == next_start(n):
+                    peek_reads.append((n, x))
+                else:
+                    judge(False, [idx, O, L_at(n)], "", "read-position",
+                          f"tlv_iterator reads {buf}[{AV.show(idx)}] where the cursor is {AV.show(O)} and the length variable is {AV.show(L_at(n))}: not the type byte "
+                          f"({buf}[offset]), the length byte ({buf}[offset + 1]) or the next fragment's type byte ({buf}[offset + 2 + length byte])", ctx.loc(f, n))
+    ck.require_min(R, "indexed reads of the buffer in tlv_iterator", n_reads, 3)
+
+    # ---- bounds: a read at index X is reached only through the outcome X < len(buf), with X unchanged since
+    def guarded(n, x, what: str, key: str) -> None:
+        want = A.value(n, x.slice)
+        vars_in = {a[1] for a in AV.atoms_of(want) if a[0] == "var"}
+        gate = []
+        for t in cfg.nodes:
+            if t.kind != "test" or t.id not in live:
+                continue
+            cp = compare_parts(t.exprs[0])
+            if cp is None:
+                continue
+            l, op, r = cp
+            # by value: `end = len(buf)` kept in a local is the same bound; the index may stand on either side
+            LENV = AV.atom(("len", BUF))
+            lv, rv = A.value(t, l), A.value(t, r)
+            if rv == LENV and lv == want:
+                pass
+            elif lv == LENV and rv == want:
+                op = {"Lt": "Gt", "Gt": "Lt", "LtE": "GtE", "GtE": "LtE"}.get(op, op)
+            else:
+                continue
+            # the same value at the test and at the read: nothing it is built from changes in between
+            if t.id != n.id and any(not A.unchanged(w, t.id, n.id, frozenset({t.id})) for w in vars_in):
+                continue
+            if op == "Lt":
+                gate += cfg.out_edges(t, ("T",))
+            elif op == "GtE":
+                gate += cfg.out_edges(t, ("F",))
+        starts = {cfg.entry.id}
+        for w in vars_in:
+            starts |= A.kills.get(w, set())
+        wit = None
+        for s_ in sorted(starts):
+            if s_ not in live:
+                continue
+            for d, lab, exc in cfg.nodes[s_].succ:
+                if (s_, d, lab, exc) in gate or lab == "x":
+                    continue
+                p = [] if d == n.id else cfg.find_path(d, n.id, avoid_edges=gate)
+                if p is not None:
+                    wit = wit or [(s_, lab, exc)] + p
+        ck.check(R, wit is None, f"the {what} is read only under `{AV.show(want)} < len({buf})`", f"{fk}:{key}",
+                 f"tlv_iterator reads the {what} {buf}[{AV.show(want)}] without the test that this index is inside the buffer", ctx.loc(f, n),
+                 cfg.render_path(wit) if wit else None)
+
+    for n, x in type_reads:
+        guarded(n, x, "type byte", "outer-guard")
+    for n, x in peek_reads:
+        guarded(n, x, "next fragment's type byte (look-ahead)", "peek-bounds")
+    ck.require_min(R, "type-byte reads", len(type_reads), 1)
+    if type_reads:
+        ck.check(R, bool(peek_reads), "fragments of one item are recognised by looking at the next TLV's type byte", f"{fk}:same-type",
+                 "tlv_iterator no longer looks at the type byte of the TLV that follows a full fragment: fragments of a long value are not joined", f.loc())
+    else:
+        ck.unknown(R, "tlv_iterator: the header bytes are not read by subscripts of the buffer in this function (a helper reads them?): not decided", f.loc())
+
+    # ---- the look-ahead byte is compared with the item's type
+    for n, x in peek_reads:
+        ok = None
+        if n.kind == "test":
+            cp = compare_parts(n.exprs[0], left=lambda z: z is x)
+            if cp is not None and cp[0] is x and cp[1] in ("Eq", "NotEq"):
+                ok = A.value(n, cp[2]) in (A.var(n, typv), AV.atom(("var", typv)))
+        if ok is None:
+            ck.unknown(R, "tlv_iterator: the look-ahead byte is not compared directly in a test: the same-type condition is not decided", ctx.loc(f, n))
+        else:
+            ck.check(R, ok, "the next TLV continues the item only when its type byte equals the item's type", f"{fk}:same-type-operand",
+                     "tlv_iterator compares the look-ahead byte with something other than the item's type", ctx.loc(f, n))
+
+    # ---- definitions of the four variables
+    n_moves = 0
+    move_nodes = []
+    for n in cfg.nodes:
+        if n.id not in live or n.kind != "stmt" or n.ast is None:
+            continue
+        got = A.assigned(n)
+        loc = ctx.loc(f, n)
+        O = A.var(n, offv)
+        if typv in got:
+            judge(got[typv] == AV.atom(("read", BUF, O)), [got[typv], O], "type = buffer[offset]", "header-bytes",
+                  f"tlv_iterator: the type is read as {AV.show(got[typv])} where the cursor is {AV.show(O)}", loc)
+        if lenv in got:
+            judge(got[lenv] == frag_len(n), [got[lenv], O], "length = buffer[offset + 1]", "header-bytes",
+                  f"tlv_iterator: the length is read as {AV.show(got[lenv])} where the cursor is {AV.show(O)}", loc)
+        if valv in got and type(n.ast) is ast.Assign and isinstance(n.ast.value, ast.Name) and n.ast.value.id not in roles:
+            # the value variable is made to name another local object.  When that object is created once, outside the item
+            # loop, and changed in place inside it, every item yielded afterwards is the SAME object: what the consumer kept of
+            # an earlier item changes under its hands (an alias of the iterator's scratch buffer escapes through the yield)
+            w = n.ast.value.id
+            wdefs = [cfg.nodes[i] for i in A.du.defs if w in A.du.defs[i] and i != cfg.entry.id and A.du.defs[i][w].kind != "aug"]
+            mutable = all(type(d.ast) is ast.Assign and (isinstance(d.ast.value, (ast.List, ast.Dict, ast.Set)) or (
+                isinstance(d.ast.value, ast.Call) and isinstance(d.ast.value.func, ast.Name) and d.ast.value.func.id in ("bytearray", "list", "dict", "set"))) for d in wdefs)
+            loops_y = [fr[1] for y in [m for m in cfg.nodes if any(isinstance(z, ast.Yield) for e in m.exprs if e is not None for z in walk_expr(e))]
+                       for fr in y.frames if fr[0] == "loop" and fr[2] == "body"]
+            outer = loops_y[0] if loops_y else None
+            in_outer = lambda m: outer is not None and any(fr[0] == "loop" and fr[1] is outer and fr[2] == "body" for fr in m.frames)  # noqa: E731
+            mut_in = [i for i in A.kills.get(w, set()) if i not in A.du.defs or w not in A.du.defs[i] or A.du.defs[i][w].kind == "aug"]
+            if wdefs and mutable and not any(in_outer(d) for d in wdefs) and any(in_outer(cfg.nodes[i]) for i in mut_in):
+                ck.violated(R, f"{fk}:value-aliases-scratch",
+                            f"tlv_iterator: the yielded value is made to name `{w}`, one object created outside the item loop and changed in place inside it: "
+                            "every later item rewrites the value a consumer kept from an earlier one", loc, None,
+                            "each yielded value is an object of its own")
+                continue
+        if valv in got:
+            want_lo = AV.add(O, AV.const(2))
+            frag_a = AV.atom(("slice", BUF, want_lo, AV.add(want_lo, L_at(n))))
+            frag_b = AV.atom(("slice", BUF, want_lo, next_start(n)))
+            v = got[valv]
+            if isinstance(n.ast, ast.AugAssign):
+                v = AV.add(v, A.var(n, valv), -1)  # what is appended
+            in_step = L_at(n) == frag_len(n)
+            judge(v == frag_b or (v == frag_a and in_step), [v, O, L_at(n)], "value (+)= buffer[offset + 2 : offset + 2 + length byte]", "value-slices",
+                  f"tlv_iterator: the fragment taken is {AV.show(v)} where the cursor is {AV.show(O)} and the length variable is {AV.show(L_at(n))}"
+                  + ("" if in_step else " (the length variable is not the length byte of the fragment at the cursor here)"), loc)
+        if offv in got:
+            v = got[offv]
+            if AV.as_const(v) == 0:
+                ck.holds(R, "the cursor starts at 0", loc)
+                continue
+            n_moves += 1
+            move_nodes.append(n)
+            in_step = L_at(n) == frag_len(n)
+            ok = v == next_start(n) or (in_step and v == AV.add(AV.add(O, AV.const(2)), L_at(n)))
+            judge(ok, [v, O, L_at(n)], "the cursor moves by 2 + length byte of the fragment it is on (to the next fragment / item)", "advance",
+                  f"tlv_iterator: the cursor moves to {AV.show(v)} where it is {AV.show(O)} and the length variable is {AV.show(L_at(n))}; the next TLV starts at "
+                  "offset + 2 + (length byte of the fragment at offset)", loc)
+    ck.require_min(R, "cursor moves in tlv_iterator", n_moves, 2)
+    # ---- after an item was yielded the cursor moves before the next header is read
+    ynodes = [n for n in cfg.nodes if n.id in live and any(isinstance(x, ast.Yield) for e in n.exprs if e is not None for x in walk_expr(e))]
+    mv = {n.id for n in move_nodes}
+    for y in ynodes:
+        p = None
+        for e in ctx.normal_out(cfg, y):
+            for tn, _x in type_reads:
+                if e[1] in mv:
+                    continue
+                p = p or ([] if e[1] == tn.id else cfg.find_path(e[1], tn.id, avoid_nodes=mv))
+        ck.check(R, p is None, "after each item the cursor moves past its last fragment before the next header is read", f"{fk}:advance-missing",
+                 "tlv_iterator can read the next header without having moved the cursor past the item it just yielded", ctx.loc(f, y),
+                 cfg.render_path(p) if p else None)
+
+
+def _t1_array(ctx: Context) -> None:
+    ck = ctx.ck
 
     def src(e):
         return _u(e).replace(" ", "")
 
-    peek_nodes = [n for n in asg.get("peek_offset", []) + [m for k, v in asg.items() for m in v if k not in (offv, typv, lenv, valv)] if src(n.ast.value) in (f"{offv}+2+{lenv}", f"{offv}+{lenv}+2", f"2+{offv}+{lenv}")]
-    peek_nodes = list({n.id: n for n in peek_nodes}.values())
-    if len(peek_nodes) != 1:
-        # a wrong look-ahead offset cannot be told from a differently organised iterator here (the accounting below is written
-        # for the `peek = offset + 2 + length` temporary): not decided rather than reported
-        wrong = [n for n in asg.get("peek_offset", []) if n not in peek_nodes]
-        if wrong:
-            ck.violated("C16.T1", f"{ctx.fkey(f)}:peek-offset", f"tlv_iterator: the look-ahead offset is `{src(wrong[0].ast.value)}`, not offset + 2 + length", ctx.loc(f, wrong[0]))
-        else:
-            ck.unknown("C16.T1", "tlv_iterator: no look-ahead temporary `offset + 2 + length` found: this organisation of the iterator is not decided", f.loc())
-        return
-    ck.holds("C16.T1", "look-ahead offset = offset + 2 + length", ctx.loc(f, peek_nodes[0]))
-    pk = peek_nodes[0]
-    pkv = pk.ast.targets[0].id
-    # bounds test before the read buf[peek]
-    reads = [n for n in cfg.nodes if any(isinstance(x, ast.Subscript) and _u(x.value) == buf and _u(x.slice) == pkv for e in n.exprs if e is not None for x in walk_expr(e))]
-    gate = []
-    for n in cfg.nodes:
-        if n.kind == "test":
-            cp = compare_parts(n.exprs[0], left=lambda x: _u(x) == pkv)
-            if cp and _u(cp[0]) == pkv and src(cp[2]) == f"len({buf})":
-                if cp[1] == "GtE":
-                    gate += cfg.out_edges(n, ("F",))
-                elif cp[1] == "Lt":
-                    gate += cfg.out_edges(n, ("T",))
-    for r in reads:
-        p = cfg.find_path(pk.id, r.id, avoid_edges=gate)
-        ck.check("C16.T1", p is None, "the look-ahead read is bounds-tested (peek < len) first", f"{ctx.fkey(f)}:peek-bounds", "tlv_iterator reads the look-ahead byte without testing peek_offset < len(buffer)", ctx.loc(f, r))
-    ck.require_min("C16.T1", "look-ahead reads", len(reads), 1)
-    # same-type test
-    same = any(n.kind == "test" and (cp := compare_parts(n.exprs[0], left=lambda x: src(x) == f"{buf}[{pkv}]")) and cp[1] in ("NotEq", "Eq") and src(cp[0]) == f"{buf}[{pkv}]" and _u(cp[2]) == typv for n in cfg.nodes)
-    ck.check("C16.T1", same, "fragments are merged only when the next TLV has the same type", f"{ctx.fkey(f)}:same-type", "tlv_iterator no longer compares the next type byte with the current type", f.loc())
-    # merge: offset = peek; length = buf[offset+1]; value += buf[offset+2:][:length]
-    merges = [n for n in asg.get(valv, []) if isinstance(n.ast, ast.AugAssign)]
-    okm = len(merges) == 1 and src(merges[0].ast.value) in (f"{buf}[{offv}+2:][:{lenv}]", f"{buf}[{offv}+2:{offv}+2+{lenv}]")
-    first = [n for n in asg.get(valv, []) if isinstance(n.ast, ast.Assign)]
-    okf = len(first) == 1 and src(first[0].ast.value) in (f"{buf}[{offv}+2:][:{lenv}]", f"{buf}[{offv}+2:{offv}+2+{lenv}]")
-    ck.check("C16.T1", okm and okf, "value = buffer[offset+2:][:length], merged fragment likewise", f"{ctx.fkey(f)}:value-slices",
-             f"tlv_iterator: value slices are {[src(n.ast.value) for n in first + merges]}", f.loc())
-    lens = [n for n in asg.get(lenv, [])]
-    okl = lens and all(src(n.ast.value) == f"{buf}[{offv}+1]" for n in lens)
-    typs = [n for n in asg.get(typv, [])]
-    okt = typs and all(src(n.ast.value) == f"{buf}[{offv}]" for n in typs)
-    ck.check("C16.T1", bool(okl and okt), "type = buffer[offset], length = buffer[offset+1]", f"{ctx.fkey(f)}:header-bytes", "tlv_iterator: header byte positions changed", f.loc())
-    # in the merge: offset moves to peek before length/value are re-read
-    moves = [n for n in asg.get(offv, []) if isinstance(n.ast, ast.Assign) and _u(n.ast.value) == pkv]
-    okmv = len(moves) == 1 and merges and cfg.find_path(pk.id, merges[0].id, avoid_nodes=[moves[0].id]) is None
-    relen = [n for n in lens if any(fr[0] == "loop" for fr in n.frames) and sum(1 for fr in n.frames if fr[0] == "loop") == 2]
-    okre = len(relen) == 1 and merges and moves and cfg.find_path(moves[0].id, merges[0].id, avoid_nodes=[relen[0].id]) is None
-    ck.check("C16.T1", bool(okmv and okre), "on a merge: offset := peek, then length is re-read, then the fragment is appended", f"{ctx.fkey(f)}:merge-order", "tlv_iterator: merge steps are out of order", f.loc())
-    # advance after the yield
-    adv = [n for n in asg.get(offv, []) if isinstance(n.ast, ast.AugAssign) and isinstance(n.ast.op, ast.Add)]
-    oka = len(adv) == 1 and src(adv[0].ast.value) in (f"2+{lenv}", f"{lenv}+2")
-    ynode = [n for n in cfg.nodes if any(isinstance(x, ast.Yield) for e in n.exprs if e is not None for x in walk_expr(e))]
-    if oka and ynode:
-        oka = cfg.find_path(ynode[0].id, ynode[0].id, avoid_nodes=[adv[0].id]) is None or True
-        p = None
-        for e in ctx.normal_out(cfg, ynode[0]):
-            if e[1] == adv[0].id:
-                continue
-            p = p or cfg.find_path(e[1], ynode[0].id, avoid_nodes=[adv[0].id])
-        oka = p is None
-    ck.check("C16.T1", bool(oka), "after each item the offset advances by 2 + length of the last fragment", f"{ctx.fkey(f)}:advance", "tlv_iterator: the advance after an item is not offset += 2 + length", f.loc())
-    # outer guard
-    outer = any(n.kind == "test" and (cp := compare_parts(n.exprs[0], left=lambda x: _u(x) == offv)) and cp[1] == "Lt" and _u(cp[0]) == offv and src(cp[2]) == f"len({buf})" for n in cfg.nodes)
-    ck.check("C16.T1", outer, "items are read while offset < len(buffer)", f"{ctx.fkey(f)}:outer-guard", "tlv_iterator: the outer loop guard changed", f.loc())
     # tlv_array
     a = ctx.func(f"{M}.tlv_array")
     abuf = a.pos_params[0]
@@ -528,6 +720,10 @@ MANIFEST = {
 TWIN_FILES = ["aiohomekit/tlv8.py", "aiohomekit/meshcop.py", "aiohomekit/controller/ble/structs.py", "aiohomekit/controller/coap/structs.py", "aiohomekit/model/characteristics/structs.py"]
 _F = "aiohomekit/tlv8.py"
 VARIANTS = [
+    {"name": "separator after every item that differs from the last one (by value, not by position)", "file": "aiohomekit/tlv8.py",
+     "old": "    for val in value_iter:\n        result.extend(b\"\\x00\\x00\")\n        result.extend(val.encode())\n",
+     "new": "    for val in value_iter:\n        if val != value[0]:\n            result.extend(b\"\\x00\\x00\")\n        result.extend(val.encode())\n",
+     "expect": "C16.K4"},
     {"name": "single struct-valued characteristic decoded through tlv_array (None for the all-unset message)",
      "file": "aiohomekit/model/characteristics/characteristic.py",
      "old": "                return struct.decode(new_val)\n",
